@@ -188,3 +188,25 @@ _add("ps_in_double_quotes_at_offset_0", Tmpl(b'"powershell ', (2, "nonnul"), b'"
      extra_pre="h0 != 45 and h0 != 47 and h1 != 45 and h1 != 47")
 _add("ps_in_single_quotes_at_offset_0", Tmpl(b"'pwsh ", (2, "nonnul"), b"' ", 1), lambda d: ps_squoted(d), funcs=FP, timeout=600,
      extra_pre="h0 != 45 and h0 != 47 and h1 != 45 and h1 != 47")
+
+
+def ps_no_context(data):
+    # 'ab;powershell ' + 2 free (no quote, no FOR-loop opener before the token): the result runs to the end of the text
+    ok, hits = k_contract(find_powershell_strings, data, "find_powershell_strings")
+    if not ok:
+        return False, True
+    start = 3
+    ps = [h for h in hits if h.type == "shell.powershell" and h.start == start]
+    if not ps:
+        return hx.fail("find_powershell_strings: unquoted powershell string not reported", data=data, hits=hits), True
+    for h in ps:
+        if h.end != len(data):
+            if hx.known("C03-ps-nocontext-end") and h.end == len(data) - h.start:
+                continue  # known finding (pinned by a test): end = len(data) - start
+            return hx.fail("find_powershell_strings: without an enclosing context the result must run to the end of the text",
+                           data=data, hit=h, want=len(data)), True
+    return True, True
+
+
+_add("ps_no_context_runs_to_end", Tmpl(b"ab;powershell ", (2, "nonnul"), b" x"), ps_no_context, funcs=FP, timeout=600,
+     extra_pre="h0 != 45 and h0 != 47 and h1 != 45 and h1 != 47 and h0 != 34 and h0 != 39 and h1 != 34 and h1 != 39")
